@@ -1211,6 +1211,9 @@ class Interp:
             fv = self.own(st, fv)
             if fv is not None and VAL[fv][0] == 'fn':
                 return self.call_fn_value(st, fr, t, fv, args, dest, target)
+            if fv is not None and is_agg(fv) and agg_kind(fv).startswith('closure:'):
+                # a non-capturing closure coerced to a function pointer
+                return self.call_callable(st, fr, t, [fv, AGG('tuple', 0, args)], dest, target)
             self.G.notes.append(('indirect call', fr.key, t.get('span')))
             return self.models.generic_external(self, st, fr, t, 'indirect', args, dest, target)
         c = fo['fn']
